@@ -29,6 +29,7 @@ type cfg struct {
 	Push     []string `json:"push"`      // relay push target names
 	Query    []string `json:"query"`     // URL parameters of successive publishers
 	RtspPub  bool     `json:"rtsp_pub"`
+	RtspPull bool     `json:"rtsp_pull"` // the API pull goes to an RTSP origin
 	Alphabet []string `json:"alphabet"`
 	MaxSubs  int      `json:"max_subs"`
 	MaxPubs  int      `json:"max_pubs"`
@@ -241,7 +242,11 @@ func (s *sys) Apply(ev string) error {
 		// is taken as its beginning (the server does so for a stream it did not know yet)
 		s.lastPresent = nowBefore
 		budgetMay = true
-		r := w.SM.CtrlStartRelayPull(base.ApiCtrlStartRelayPullReq{Url: "rtmp://" + w.Host("origin") + "/live/" + stream, PullTimeoutMs: 0, PullRetryNum: s.c.Retry, AutoStopPullAfterNoOutMs: s.c.AutoStop})
+		scheme := "rtmp://"
+		if s.c.RtspPull {
+			scheme = "rtsp://"
+		}
+		r := w.SM.CtrlStartRelayPull(base.ApiCtrlStartRelayPullReq{Url: scheme + w.Host("origin") + "/live/" + stream, PullTimeoutMs: 0, PullRetryNum: s.c.Retry, AutoStopPullAfterNoOutMs: s.c.AutoStop})
 		apiStartResp = &r
 		err = w.Settle()
 	case ev == "ApiStop":
@@ -560,6 +565,10 @@ func configs(r *vk.Run) []cfg {
 	}
 	for _, p := range params {
 		cs = append(cs, cfg{Name: fmt.Sprintf("api-pull(retry=%d,autostop=%d)", p.r, p.a), Retry: p.r, AutoStop: p.a, Alphabet: pullAlpha, MaxSubs: 1, MaxPubs: 1})
+	}
+	// the same rules with an RTSP origin (interleaved transport)
+	for _, p := range []rp{{1, -1}, {-1, 2000}} {
+		cs = append(cs, cfg{Name: fmt.Sprintf("api-pull-rtsp(retry=%d,autostop=%d)", p.r, p.a), Retry: p.r, AutoStop: p.a, RtspPull: true, Alphabet: pullAlpha, MaxSubs: 1, MaxPubs: 1})
 	}
 	long := strings.Repeat("k=0123456789abcdef&", 300) + "z=1"
 	cs = append(cs, cfg{Name: "push-2-targets", Push: []string{"pushA", "pushB"}, Query: []string{"", "a=1&b=2"}, Alphabet: []string{"T", "Pub"}, MaxPubs: 2})
